@@ -162,3 +162,54 @@ def build_fullgrid(repo: Repo, interp: Interp, b_name, o_name, t_name, cartesian
     if factor is not None:
         kw["factor"] = factor
     return interp.instantiate(ci, [b_name, o_name, t_name], kw)
+
+
+class GeoHooks(FGHooks):
+    """adds opaque summaries of the unit-sphere geometry (C03/C04/C15 own their correctness):
+         <voronoi>._calculate_N_N_array(sel_property=p, ...) -> sparse input O_p / B_p on one pattern PO / PB
+         <voronoi>.get_voronoi_volumes()                     -> vector area_o / vol_b"""
+
+    def __init__(self, *a, **k):
+        super().__init__(*a, **k)
+        self.geo_calls = []
+
+    def _which(self, obj: ObjV):
+        if obj.cls is None:
+            return None
+        names = [c.name for c in obj.cls.mro()]
+        if "HalfRotobjVoronoi" in names:
+            return "B", self.n_b
+        if "RotobjVoronoi" in names:
+            return "O", self.n_o
+        if "MikroVoronoi" in names:
+            d = obj.attrs.get("dimensions")
+            if isinstance(d, Num) and d.p == Poly.const(4):
+                return "MB", self.n_b
+            return "MO", self.n_o
+        return None
+
+    def call(self, interp, fv, args, kwargs, node):
+        if isinstance(fv, FuncV) and isinstance(fv.self_obj, ObjV) and fv.self_obj.cls is not None and \
+                fv.self_obj.cls.module.name == VO:
+            w = self._which(fv.self_obj)
+            if w is not None and w[0] in ("O", "B"):
+                tag, n = w
+                if fv.fi.name == "_calculate_N_N_array":
+                    params = fv.fi.params()[1:]
+                    bound = dict(zip(params, args))
+                    bound.update(kwargs)
+                    for p_, d_ in fv.fi.defaults().items():
+                        if p_ not in bound and isinstance(d_, ast.Constant):
+                            bound[p_] = Const(d_.value) if not isinstance(d_.value, (int, float)) or isinstance(d_.value, bool) else Num(d_.value)
+                    sp = bound.get("sel_property")
+                    if isinstance(sp, Const):
+                        self.geo_calls.append((tag, fv.fi.where, {k: v for k, v in bound.items()}))
+                        o = T.new_sparse(Term("input", [Const(f"{tag}_{sp.v}")], {"args": DictV(bound)}), "P" + tag, ("in",),
+                                         TupleV([Num(n), Num(n)]), fmt="coo")
+                        idx, ext = T.sparse_entry_dim(interp, o)
+                        o.attrs["data"] = Grid([[(idx, ext)]], Num(Poly.app("at", f"{tag}_{sp.v}", Poly.atom(idx))))
+                        return o
+                if fv.fi.name == "get_voronoi_volumes":
+                    self.geo_calls.append((tag, fv.fi.where, dict(kwargs)))
+                    return T.vec(interp, "area_o" if tag == "O" else "vol_b", n, hint="v")
+        return super().call(interp, fv, args, kwargs, node)
